@@ -117,7 +117,7 @@ static void stage_shapes(Run &R) {
 static void stage_bounded(Run &R) {
     static const char AL[] = {'1', 'a', ':', '.', ']', '[', 'g'};
     const int K = sizeof AL;
-    int maxlen = R.a.thorough ? 7 : 6;
+    int maxlen = R.a.thorough ? 8 : 6;
     uint64_t total = 0, idx = 0;
     std::vector<int> d(maxlen, 0);
     for (int len = 0; len <= maxlen; len++) {
